@@ -17,6 +17,11 @@ def judge(m, o):
     if got - want:
         problems.append(f"relations nobody asserted: {sorted(got - want)}")
     for x, d in o["inv"].items():
+        if x == "a2":
+            # the object made by dataclasses.replace: its own fields hold what a's fields held (with repetitions)
+            if d["knows"] != sorted(m["lst"]) or d["known_by"] != sorted(m["st"]):
+                problems.append(f"the copy's fields hold {d['knows']} / {d['known_by']}, the original's held {sorted(m['lst'])} / {sorted(m['st'])}")
+            continue
         for p in ("knows", "known_by"):
             exp = sorted(t for (q, s, t) in want if q == p and s == x)
             if d[p] != exp:
@@ -30,13 +35,14 @@ def main():
     ctx = Ctx("C16", "model_checking")
     thorough = ctx.tier == "thorough"
     ctx.rule = ("TLC enumerates every sequence of 2 writes (assignment, self-assignment, +=, |=, append, extend, insert, item and "
-                "slice assignment, add, update; argument lists of length <= 2 with repetitions, sets over 3 elements) and samples "
+                "slice assignment, add, update, assignment of a lazy view of the field's own contents - reversed / generator / chain -, and "
+                "dataclasses.replace of the owner as last step; argument lists of length <= 2 with repetitions, sets over 3 elements) and samples "
                 "sequences of 5 writes by seeded simulation; each is replayed on a real instance; after every write the list "
                 "field (exact sequence), the set field, the graph relations and the inverse fields of the elements are compared "
                 "with Python semantics + monotone inference. Non-trivial = at least one write on a non-empty field; distinct by "
                 "write sequence.")
     ctx.run_tlc("FieldWrites", "FieldWrites_mc.cfg", expect="ok")
-    for sw in ("ClearBeforeCopy", "CopyThroughSet", "UnhookedExtend"):
+    for sw in ("ClearBeforeCopy", "CopyThroughSet", "UnhookedExtend", "AliasedFirstAssignment"):
         ctx.run_tlc("FieldWrites", f"FieldWrites_sw_{sw}.cfg", expect="violation")
     behs = [b["h"] for b in ctx.run_tlc("FieldWrites", "FieldWrites_gen.cfg", expect="ok").json_lines() if isinstance(b, dict)]
     if len(behs) < 5000:
